@@ -126,7 +126,9 @@ def criteria_list():
         for t in ('b', 'ABC', 'abd'):
             out.append(op + t)
     for w in ('*', '?', '??', '???', 'a*', 'A*', '*c', '*C', 'a?c', '*b*', '?*', '*?', 'a*c', '?b?', 'ab*d',
-              'a.*', '?.?', '(*', '*)', 'a+*', '[*', '*\\', 'x*y', '* *', 'zo?', '3*', '?.5', '*e*', 'T*', '#*'):
+              'a.*', '?.?', '(*', '*)', 'a+*', '[*', '*\\', 'x*y', '* *', 'zo?', '3*', '?.5', '*e*', 'T*', '#*',
+              # a head and a tail which overlap in a short text ("a*a" does not select "a", "ab*b" not "ab")
+              'a*a', 'ab*b', 'b*b', 'ab*bc', 'abc*abc', 'a*bc'):
         for op in ('', '=', '<>'):
             out.append(op + w)
     for w in ('~*', '~?', '~~', 'a~*', 'a~?c', '*~*', '~**', '?~?', 'a~', 'a~b', '~a'):
